@@ -90,7 +90,7 @@ package tm
 //@   ensures_on_panic ghost.biz_calls == old(ghost.biz_calls) + 1 && ghost.biz_panicked
 
 //@ func commitOrRollback
-//@   prop C04
+//@   prop C04 C07
 //@   modifies ghost.commit_sends, ghost.commit_acked, ghost.commit_refused, ghost.commit_xid, ghost.rollback_sends, ghost.rollback_acked, ghost.rollback_refused, ghost.rollback_xid, ghost.last_send_failed, ghost.ctx_done
 //@   requires ctx != nil
 //@   let cv := ctxvalue(ctx, seataContextVariable)
@@ -113,7 +113,7 @@ package tm
 // NotSupported and Never run without a transaction; Mandatory / Never fail when their precondition
 // is unmet.
 //@ func begin
-//@   prop C07
+//@   prop C07 C04
 //@   requires ctx != nil && gc != nil
 //@   let cv := ctxvalue(ctx, seataContextVariable)
 //@   requires isT(cv, *ContextVariable) && cv.(*ContextVariable) != nil
